@@ -80,6 +80,17 @@ func (e *Engine) external1(fn *ssa.Function) extFn {
 	}
 }
 
+// concU returns a concrete integer, concretising (forking) a symbolic one.
+func (e *Engine) concU(v value) uint64 {
+	switch x := v.(type) {
+	case uint64:
+		return x
+	case *symv:
+		return e.concretize(x.t)
+	}
+	panic(fmt.Sprintf("concU: %T", v))
+}
+
 func concStr(v value) (string, bool) {
 	s, ok := v.(string)
 	return s, ok
@@ -407,9 +418,12 @@ var natives = map[string]extFn{
 		return mkStr(s[i:])
 	},
 	"strconv.FormatInt": func(e *Engine, _ *frame, _ *ssa.Function, a []value) value {
-		return strconv.FormatInt(sext(a[0].(uint64), 64), int(a[1].(uint64)))
+		return strconv.FormatInt(sext(e.concU(a[0]), 64), int(a[1].(uint64)))
 	},
 	"strconv.FormatFloat": func(e *Engine, _ *frame, _ *ssa.Function, a []value) value {
+		if _, ok := a[0].(symfloat); ok {
+			e.unsupported("strconv.FormatFloat of a float that depends on symbolic bytes")
+		}
 		return strconv.FormatFloat(a[0].(float64), byte(a[1].(uint64)), int(sext(a[2].(uint64), 64)), int(a[3].(uint64)))
 	},
 	"math.Abs": func(e *Engine, _ *frame, _ *ssa.Function, a []value) value { return math.Abs(a[0].(float64)) },
@@ -566,7 +580,7 @@ var natives = map[string]extFn{
 		return mkStr(b[lo:hi])
 	},
 	"strconv.Itoa": func(e *Engine, _ *frame, _ *ssa.Function, a []value) value {
-		return strconv.Itoa(int(sext(a[0].(uint64), 64)))
+		return strconv.Itoa(int(sext(e.concU(a[0]), 64)))
 	},
 	"strconv.ParseInt": func(e *Engine, _ *frame, _ *ssa.Function, a []value) value {
 		base, bits := int(a[1].(uint64)), int(a[2].(uint64))
